@@ -114,6 +114,7 @@ type model struct {
 	WSP       bool              // WSP control channel: a play-only proxy endpoint (D13)
 	Paused    bool              // a PAUSE was answered 2xx and no PLAY since (D14)
 	Announced string            // path of the last successful ANNOUNCE on this connection
+	Unusable  bool              // an accepted SETUP carried a client_port above 65535 (D15)
 }
 
 func newModel(wsPath string) *model {
@@ -199,7 +200,7 @@ func (m *model) setup(e *env, s *step) expectation {
 	if m.Mode == "" {
 		return expectation{Kind: expRefuse, Why: "SETUP without a description (D8)"}
 	}
-	if s.Malformed != "" {
+	if s.Malformed != "" && s.Malformed != "hugeport" {
 		return expectation{Kind: expRefuse, Why: "SETUP with malformed transport " + s.Malformed + " (D8)"}
 	}
 	want := s.Mode
@@ -213,6 +214,12 @@ func (m *model) setup(e *env, s *step) expectation {
 	}
 	if want != m.Mode {
 		return expectation{Kind: expRefuse, Why: fmt.Sprintf("SETUP mode=%s in a %s session (D8)", want, m.Mode)}
+	}
+	if s.Malformed == "hugeport" {
+		// D15: client_port above 65535 is syntactically a transport but names no UDP port: the
+		// SETUP may be accepted or refused; once accepted, the following PLAY / RECORD may fail
+		// (nowhere to send to) or succeed - but whatever is refused changes nothing
+		return expectation{Kind: expAny, Why: "SETUP with client_port above 65535 (D15)", apply: func(m *model) { took(m); m.Unusable = true }}
 	}
 	if m.NoCtl {
 		return expectation{Kind: expAny, Why: "SETUP against a description without a=control (D9)", apply: took}
@@ -280,6 +287,9 @@ func (m *model) expect(e *env, s *step) expectation {
 			if s.Path != m.Path {
 				return expectation{Kind: expAny, Why: "PLAY with a URL under another path than the session's", apply: func(m *model) { m.St, m.Paused = stPlaying, false }}
 			}
+			if m.Unusable {
+				return expectation{Kind: expAny, Why: "PLAY after a SETUP whose client_port is no UDP port (D15)", apply: func(m *model) { m.St, m.Paused = stPlaying, false }}
+			}
 			return expectation{Kind: expOK, Why: "PLAY after DESCRIBE and SETUP", apply: func(m *model) { m.St, m.Paused = stPlaying, false }}
 		case s.Path != m.Path && m.Path != "":
 			return expectation{Kind: expRefuse, Why: "PLAY in state " + m.String() + " with a foreign URL"}
@@ -296,6 +306,9 @@ func (m *model) expect(e *env, s *step) expectation {
 		case m.St == stReady && m.Mode == "record":
 			if s.Path != m.Path {
 				return expectation{Kind: expAny, Why: "RECORD with a URL under another path than the session's", apply: func(m *model) { m.St = stRecording }}
+			}
+			if m.Unusable {
+				return expectation{Kind: expAny, Why: "RECORD after a SETUP whose client_port is no UDP port (D15)", apply: func(m *model) { m.St = stRecording }}
 			}
 			if !m.hasSetup("tcp") {
 				return expectation{Kind: expAny, Why: "RECORD with only non-TCP transports set up (D9)", apply: func(m *model) { m.St = stRecording }}
